@@ -57,23 +57,74 @@ def run_cases(ctx, cases_path, label, expected_ids=None, lists=("M",)):
     return res
 
 
+def ledger_env(ctx, ledger):
+    """Environment for a harness run in ledger mode (or record mode when the developer asked
+    for it with ./check Cxx --record; a check never records)."""
+    if not ledger:
+        return {}
+    path = os.path.join(common.VERIF, ledger)
+    if os.environ.get("VERIF_DO_RECORD") == "1":
+        return {"VERIF_RECORD": path + ".new"}
+    return {"VERIF_LEDGER": path}
+
+
+def ledger_finish(ctx, ledger, st):
+    """After a ledger-mode run: recorded failing inputs that reproduced are attributed to the
+    open known findings that own the ledger (per root-cause label)."""
+    if not ledger:
+        return
+    path = os.path.join(common.VERIF, ledger)
+    if os.environ.get("VERIF_DO_RECORD") == "1":
+        new = path + ".new"
+        if os.path.exists(new):
+            lines = sorted(set(open(new, errors="replace").read().splitlines()))
+            prev = []
+            if os.path.exists(path) and os.environ.get("VERIF_RECORD_MERGE") == "1":
+                prev = open(path, errors="replace").read().splitlines()
+            with open(path, "w") as f:
+                f.write("\n".join(sorted(set(lines + prev))) + "\n")
+            os.remove(new)
+            common.log("recorded %d failing inputs into %s" % (len(lines), ledger))
+        return
+    known = common.load_known(ctx.prop)
+    by_rc = st.get("known_by_rc") or {}
+    ctx.coverage.setdefault("known_failing_inputs_reproduced", {}).update(by_rc)
+    for rc, n in by_rc.items():
+        e = next((e for e in known if e.get("status") == "open" and e.get("ledger") == ledger and
+                  (rc in e.get("rcs", []) or any(rc.startswith(pfx) for pfx in e.get("rc_prefixes", [])) or
+                   any(rc.endswith(sfx) for sfx in e.get("rc_suffixes", [])))), None)
+        if e is None:
+            # a ledger line without an owning finding is a bookkeeping error: report it
+            ctx.violations.append({"kind": "ledger-without-finding", "sig": "ledger %s rc=%s" % (ledger, rc),
+                                   "detail": {"ledger": ledger, "rc": rc, "count": n}})
+        elif e not in ctx.known_hits:
+            ctx.known_hits.append(e)
+
+
 def standard(ctx, props, sub, label, extra_args=(), lists=("M",), timeout=3000,
-             expected_key=None, harness_env=None, model=False, violation_kind=None):
-    """props: Props file name or list of names; sub: harness sub-command."""
+             expected_key=None, harness_env=None, model=False, violation_kind=None, ledger=None, seed=None):
+    """props: Props file name or list of names; sub: harness sub-command.
+    ledger: relative path of the exact failing-input ledger for this run; such runs use a fixed
+    corpus (seed given by `seed`, default 1) so that recorded inputs are identified exactly."""
     common.build_coq()
     for p in ([props] if isinstance(props, str) else props):
         props_obligations(ctx, p)
     hb = common.build_harness()
-    cases = ctx.path("cases_%s.v" % label)
-    stats = ctx.path("stats_%s.json" % label)
-    args = ["-seed", ctx.seed, "-tier", ctx.tier, "-out", cases, "-stats", stats] + list(extra_args)
-    rc, out = common.harness(ctx, hb, sub, args, timeout=timeout, env=harness_env)
+    flabel = re.sub(r"[^A-Za-z0-9_]", "_", label)
+    cases = ctx.path("cases_%s.v" % flabel)
+    stats = ctx.path("stats_%s.json" % flabel)
+    use_seed = ctx.seed if (ledger is None and seed is None) else (seed if seed is not None else 1)
+    args = ["-seed", use_seed, "-tier", ctx.tier, "-out", cases, "-stats", stats] + list(extra_args)
+    env = dict(harness_env or {})
+    env.update(ledger_env(ctx, ledger))
+    rc, out = common.harness(ctx, hb, sub, args, timeout=timeout, env=env)
     if rc != 0 or not os.path.exists(stats):
         ctx.oblige("correspondence:%s (harness runs)" % label, False, out[-3000:])
         ctx.notes.append("harness %s failed rc=%s: %s" % (sub, rc, out[-1500:]))
         return None
     st = common.load_stats(stats)
     common.absorb_stats(ctx, st, label)
+    ledger_finish(ctx, ledger, st)
     ctx.oblige("correspondence:%s (Go side: implementation vs specification, %d evaluations)" % (label, st.get("evaluations", 0)),
                True)
     expected = set()
